@@ -9,6 +9,82 @@ from ..cfg import CFG, ReachingDefs, decompose
 from ..consteval import FnEval, TOP, Pattern
 
 
+def string_parts(e):
+    """[str | expr] for an expression that builds a text from literal pieces and values: f'a{x}b', 'a' + x + 'b',
+    'a{}b'.format(x); None if e is not of that kind (or uses a format spec / conversion)."""
+    if isinstance(e, ast.Constant) and isinstance(e.value, str):
+        return [e.value]
+    if isinstance(e, ast.JoinedStr):
+        out = []
+        for v in e.values:
+            if isinstance(v, ast.Constant):
+                out.append(v.value)
+            elif isinstance(v, ast.FormattedValue) and v.format_spec is None and v.conversion == -1:
+                out.append(v.value)
+            else:
+                return None
+        return _merge_parts(out)
+    if isinstance(e, ast.BinOp) and isinstance(e.op, ast.Add):
+        l, r = string_parts(e.left), string_parts(e.right)
+        l = l if l is not None else [e.left]
+        r = r if r is not None else [e.right]
+        out = _merge_parts(l + r)
+        return out if any(isinstance(x, str) for x in out) else None
+    if isinstance(e, ast.Call) and isinstance(e.func, ast.Attribute) and e.func.attr == "format" and isinstance(e.func.value, ast.Constant) \
+            and isinstance(e.func.value.value, str) and not e.keywords:
+        import string
+        out, i = [], 0
+        for lit, name, spec, conv in string.Formatter().parse(e.func.value.value):
+            if lit:
+                out.append(lit)
+            if name is None:
+                continue
+            if name not in ("", str(i)) or spec or conv or i >= len(e.args):
+                return None
+            out.append(e.args[i])
+            i += 1
+        return _merge_parts(out)
+    return None
+
+
+def _merge_parts(parts):
+    out = []
+    for x in parts:
+        if isinstance(x, str) and out and isinstance(out[-1], str):
+            out[-1] += x
+        elif isinstance(x, str) and not x:
+            continue
+        else:
+            out.append(x)
+    return out
+
+
+def expr_guards(node, stop=None):
+    """[(test, polarity)] that hold when *node* is evaluated because of the expression it sits in: the test of an enclosing
+    conditional expression, the earlier operands of an enclosing and/or, the filters of an enclosing comprehension."""
+    out = []
+    child, p = node, getattr(node, "parent", None)
+    while p is not None and p is not stop and not isinstance(p, ast.stmt):
+        if isinstance(p, ast.IfExp):
+            if child is p.body:
+                out.extend(decompose(p.test, True))
+            elif child is p.orelse:
+                out.extend(decompose(p.test, False))
+        elif isinstance(p, ast.BoolOp):
+            for v in p.values:
+                if v is child:
+                    break
+                out.extend(decompose(v, isinstance(p.op, ast.And)))
+        elif isinstance(p, (ast.ListComp, ast.SetComp, ast.GeneratorExp, ast.DictComp)):
+            if child is not p.generators[0].iter:
+                for g in p.generators:
+                    for c in g.ifs:
+                        if c is not child:
+                            out.extend(decompose(c, True))
+        child, p = p, getattr(p, "parent", None)
+    return out
+
+
 def fn_ctx(fn):
     """(cfg, rd) of a function, cached through FnEval's cache."""
     key = id(fn)
@@ -648,6 +724,21 @@ def rule_module_lifetime(repo: Repo, chk: Check, rule: str):
                 loopvars.append(p.target.id)
             p = getattr(p, "parent", None)
         ok = any(pol and any(_is_module_scope_test(tst, lv) for lv in loopvars) for tst, pol in atoms)
+        # (a') the scope is held in a local: isinstance(V, Module) where V = n.scope(), possibly re-defined for function
+        #      definitions only (a FunctionDef's own scope() is the function itself, never a module, so such a re-definition
+        #      cannot take the unbounded lifetime away from a value written at module level)
+        for tst, pol in atoms:
+            if not (pol and isinstance(tst, ast.Call) and norm(tst.func) == "isinstance" and len(tst.args) == 2 and isinstance(tst.args[0], ast.Name)
+                    and norm(tst.args[1]).endswith("Module")):
+                continue
+            tid = nid_of_test(cfg, tst, ids[0] if ids else 0)
+            ds = rd.at(tid, tst.args[0].id)
+            base = [d for d in ds if d.kind == "assign" and not d.index and d.value is not None and any(norm(d.value) == f"{lv}.scope()" for lv in loopvars)]
+            rest = [d for d in ds if d not in base]
+            only_functions = all(any(p2 and isinstance(t2, ast.Call) and norm(t2.func) == "isinstance" and len(t2.args) == 2 and norm(t2.args[0]) in loopvars
+                                     and norm(t2.args[1]).endswith("FunctionDef") for t2, p2 in guard_atoms(cfg, d.node)) for d in rest)
+            if base and only_functions:
+                ok = True
         # (b) under any(isinstance(n.scope(), Module) for n in self.nodes_writing)
         for tst, pol in atoms:
             if pol and isinstance(tst, ast.Call) and norm(tst.func) == "any" and len(tst.args) == 1 and isinstance(tst.args[0], (ast.GeneratorExp, ast.ListComp)):
@@ -755,6 +846,14 @@ def gather_model(repo: Repo):
     g = repo.mod("generate_code")
     fn = g.func("CompilerPassGatherCode.run")
     out = []
+    _MAIN_NAMES.clear()
+    for st in ast.walk(fn):
+        if isinstance(st, ast.Assign):
+            names = [t.id for t in st.targets if isinstance(t, ast.Name)]
+            others = [t for t in st.targets if not isinstance(t, ast.Name)] + [st.value]
+            if names and any(_is_main_entry(x) for x in others):
+                stores = {n.id for n in ast.walk(fn) if isinstance(n, ast.Name) and isinstance(n.ctx, ast.Store)}
+                _MAIN_NAMES.update(n for n in names if sum(1 for x in ast.walk(fn) if isinstance(x, ast.Name) and isinstance(x.ctx, ast.Store) and x.id == n) == 1)
     for st in ast.walk(fn):
         src = None
         if isinstance(st, ast.Expr) and isinstance(st.value, ast.Call) and isinstance(st.value.func, ast.Attribute) and st.value.func.attr in ("append", "extend", "insert") \
@@ -782,19 +881,63 @@ def gather_model(repo: Repo):
             pending.append(s2)
         elif isinstance(s2, ast.Call) and norm(s2.func) in ("list", "tuple") and len(s2.args) == 1 and isinstance(s2.args[0], (ast.ListComp, ast.GeneratorExp)):
             pending.append(s2.args[0])
-        depth = 0
-        while pending:
-            depth += 1
-            if depth > 12:
-                raise AnalysisError("GatherCode.run: iteration sources nest too deeply")
-            it = pending.pop(0)
-            if isinstance(it, (ast.ListComp, ast.GeneratorExp)):
-                for gen in it.generators:
-                    for c in gen.ifs:
-                        conds.append((c, True))
-                    pending.append(gen.iter)
-                continue
-            sources.append(it)
+        for conds_k, sources_k, region_k in _expand_sources(pending, list(conds)):
+            out.append(_finish_emission(st, conds_k, sources_k, s2, region_k))
+    return fn, out
+
+
+def _expand_sources(pending, conds, depth=0):
+    """[(conds, sources, forced region)]: comprehensions contribute their filters and iterables; a display of regions
+    (main, *called) / [main] + called  yields one alternative per element, each with its own conditions."""
+    if depth > 12:
+        raise AnalysisError("GatherCode.run: iteration sources nest too deeply")
+    pending = list(pending)
+    sources = []
+    while pending:
+        it = pending.pop(0)
+        if isinstance(it, (ast.ListComp, ast.GeneratorExp)):
+            for gen in it.generators:
+                for c in gen.ifs:
+                    conds.append((c, True))
+            pending = [gen.iter for gen in it.generators] + pending
+            continue
+        parts = None
+        if isinstance(it, (ast.Tuple, ast.List)) and it.elts:
+            parts = list(it.elts)
+        elif isinstance(it, ast.BinOp) and isinstance(it.op, ast.Add) and isinstance(it.left, (ast.List, ast.Tuple)) and it.left.elts:
+            parts = list(it.left.elts) + [ast.Starred(value=it.right, ctx=ast.Load())]
+        if parts is not None:
+            alts = []
+            for el in parts:
+                if isinstance(el, ast.Starred):
+                    for c2, s2_, r2 in _expand_sources([el.value] + pending, list(conds), depth + 1):
+                        alts.append((c2, sources + s2_, r2))
+                else:
+                    if not _is_main_entry(el):
+                        raise AnalysisError(f"GatherCode.run: the single region {norm(el)[:40]} in a display of regions is not the main entry")
+                    for c2, s2_, r2 in _expand_sources(pending, list(conds), depth + 1):
+                        alts.append((c2, sources + s2_, "main"))
+            return alts
+        sources.append(it)
+    return [(conds, sources, None)]
+
+
+_MAIN_NAMES = set()
+
+
+def _is_main_entry(e):
+    """functions['']  or the object made for it (FunctionData(None, None)), or a local of run() bound to it"""
+    if isinstance(e, ast.Name) and e.id in _MAIN_NAMES:
+        return True
+    if isinstance(e, ast.Subscript) and isinstance(e.slice, ast.Constant) and e.slice.value == "" and "functions" in norm(e.value):
+        return True
+    if isinstance(e, ast.Call) and norm(e.func).split(".")[-1] == "FunctionData" and e.args and isinstance(e.args[0], ast.Constant) and e.args[0].value is None:
+        return True
+    return False
+
+
+def _finish_emission(st, conds, sources, s2, forced_region):
+    if True:
         order = None
         for it in sources:
             calls = [c for c in ast.walk(it) if isinstance(c, ast.Call) and norm(c.func) == "sorted"]
@@ -807,8 +950,10 @@ def gather_model(repo: Repo):
                 region = "main"
         if region == "main" and (sources or order is not None):
             region = None       # inside a loop: judged by its conditions
-        out.append(Emission(st, conds, sources, order, region))
-    return fn, out
+        if forced_region is not None:
+            region = forced_region
+            order = None
+        return Emission(st, conds, sources, order, region)
 
 
 def _main_atom(e):
@@ -818,6 +963,9 @@ def _main_atom(e):
         if any(isinstance(x, ast.Constant) and x.value == "" for x in (l, r)) and isinstance(e.ops[0], (ast.Eq, ast.NotEq)):
             return 1 if isinstance(e.ops[0], ast.Eq) else -1
         if isinstance(r, ast.Constant) and r.value is None and isinstance(l, ast.Attribute) and l.attr == "node" and isinstance(e.ops[0], (ast.Is, ast.IsNot, ast.Eq, ast.NotEq)):
+            return 1 if isinstance(e.ops[0], (ast.Is, ast.Eq)) else -1
+        # <f> is the main entry itself
+        if (_is_main_entry(l) or _is_main_entry(r)) and isinstance(e.ops[0], (ast.Is, ast.IsNot, ast.Eq, ast.NotEq)):
             return 1 if isinstance(e.ops[0], (ast.Is, ast.Eq)) else -1
     return 0
 
